@@ -20,12 +20,32 @@ def perform_arms(c, prog):
                 continue
             op = vname(alt[1])
             info = {"op": op, "input": None, "outputs": set(), "literals": None, "enum_outputs": set(), "node": arm}
-            # if let Variant::X(..) = input
+            # the Variant kind(s) the arm accepts: every pattern the `input` parameter is matched against
+            # (`if let Variant::X(..) = input` or `match input { Variant::X(..) => .. }`)
+            in_lid = fn.params[1]["lid"] if len(fn.params) > 1 else None
+            accepted = set()
+
+            def variant_defs(p):
+                out = set()
+                stack = [p]
+                while stack:
+                    x = stack.pop()
+                    if isinstance(x, dict):
+                        if (x.get("def") or "").startswith(common.VARIANT + "::"):
+                            out.add(vname(x["def"]))
+                        stack.extend(v for v in x.values() if isinstance(v, (dict, list)))
+                    elif isinstance(x, list):
+                        stack.extend(x)
+                return out
             for n in core.walk(arm["body"]):
-                if n.get("k") == "If" and core.strip(n["c"]).get("k") == "LetExpr":
-                    le = core.strip(n["c"])
-                    if core.strip(le["init"]).get("name") == "input" and (le["pat"].get("def") or "").startswith(common.VARIANT + "::"):
-                        info["input"] = vname(le["pat"]["def"])
+                if n.get("k") == "LetExpr" and core.strip(n["init"]).get("lid") == in_lid:
+                    accepted |= variant_defs(n["pat"])
+                if n.get("k") == "Match" and n.get("src") == "Normal" and core.strip(n["e"]).get("lid") == in_lid:
+                    for a2 in n["arms"]:
+                        accepted |= variant_defs(a2["pat"])
+            if len(accepted) == 1:
+                info["input"] = next(iter(accepted))
+            for n in core.walk(arm["body"]):
                 # `.into()` producing the Variant
                 if n.get("k") == "MethodCall" and n["m"] == "into" and n.get("ty") == common.VARIANT:
                     t = n["recv"].get("ty", "")
